@@ -26,7 +26,7 @@ from val import Stream
 ID = 'C10'
 COQ_PROP = 'C10'
 LEVEL = 'proof'
-TRANSLATE = ['sql']
+TRANSLATE = ['sql', 'disk', 'persistent']
 TRUSTED = [
     'coq/base/SqlBase.v + Val.v: WHERE / ORDER BY (stable sort, DESC = reversed) / LIMIT and the SQLite value order; coq/model/Cache.v: '
     'hand-written control skeleton of push/pull/peek/_cull over the generated selects, guards and constants; both are compared with the '
